@@ -170,16 +170,18 @@ def paintNote (R R32 : Rat → Rat) (c : Cfg) (n : Nat) (st : Rolls) (nt : PNote
   else
     let vels := paint st.vels f.sf f.ef col (R32 (R ((nt.velocity : Rat) / (c.maxVelocity : Rat))))
     let w1 := paint st.weights f.os f.oe col (R32 c.upweight)
-    let len := (f.ef - f.oe).toNat          -- len(range(1, end_frame - onset_end_frame + 1))
-    if len ≠ sliceLen n f.oe f.ef ∧ len ≠ 1 then .error .valueError
+    let we := min f.ef (n : Int)            -- weights_end_frame = min(end_frame, roll_weights.shape[0])
+    let len := (we - f.oe).toNat            -- len(range(1, weights_end_frame - onset_end_frame + 1))
+    -- numpy: a list assigned to a slice must have the slice's length or length 1 (`paintNote_no_error`:
+    -- this can only fail for `end_frame < 0`, i.e. for notes before time 0)
+    if len ≠ sliceLen n f.oe we ∧ len ≠ 1 then .error .valueError
     else
-      let w2 := paintSeq w1 f.oe f.ef col (len == 1) fun j => R32 (R (c.upweight / ((j + 1 : Nat) : Rat)))
-      if c.blank ∧ 0 < f.sf then
-        if f.sf - 1 < (n : Int) then
-          let r := (f.sf - 1).toNat
-          .ok { active := setCell active r col 0, weights := setCell w2 r col 1, onsets := onsets,
-                offsets := offsets, vels := vels }
-        else .error .indexError
+      let w2 := paintSeq w1 f.oe we col (len == 1) fun j => R32 (R (c.upweight / ((j + 1 : Nat) : Rat)))
+      -- `if 0 < start_frame <= roll.shape[0]:` — the integer index `start_frame - 1` is in range
+      if c.blank ∧ 0 < f.sf ∧ f.sf ≤ (n : Int) then
+        let r := (f.sf - 1).toNat
+        .ok { active := setCell active r col 0, weights := setCell w2 r col 1, onsets := onsets,
+              offsets := offsets, vels := vels }
       else .ok { active := active, weights := w2, onsets := onsets, offsets := offsets, vels := vels }
 
 def encNote (R R32 : Rat → Rat) (eps : Rat) (c : Cfg) (total : Rat) (n : Nat) (st : Rolls) (nt : PNote) :
